@@ -302,6 +302,9 @@ impl<'p> Interp<'p> {
     }
 
     fn call_function(&mut self, fid: usize, args: Vec<RV>, is_main: bool, below: usize) -> R<RV> {
+        if fid >= STD_BASE {
+            return self.call_std(fid - STD_BASE, args, below);
+        }
         let f = &self.prog.funcs[fid];
         if args.len() != f.params.len() {
             return Err(ErrKind::Undefined("arity_mismatch"));
@@ -971,6 +974,162 @@ impl<'p> Interp<'p> {
             }
         }
         Ok(Flow::Normal)
+    }
+}
+
+// ---------------------------------------------------------------------------------------------
+// standard library: the contracts of the property text, written as direct specifications
+// ---------------------------------------------------------------------------------------------
+
+pub const STD_BASE: usize = 1_000_000;
+pub const STD_NAMES: [&str; 10] = ["filter", "map", "any", "min", "max", "min_by_key", "max_by_key", "sorted", "sorted_by_key", "to_array"];
+
+/// resolved id of `std.<name>` for `Expr::Call`
+pub fn std_id(name: &str) -> Option<usize> {
+    STD_NAMES.iter().position(|n| *n == name).map(|i| STD_BASE + i)
+}
+
+impl<'p> Interp<'p> {
+    fn callable_arity(&self, f: &RV) -> Option<usize> {
+        match f {
+            RV::Func(id) => self.prog.funcs.get(*id).map(|f| f.params.len()),
+            RV::Closure(c) => Some(c.def.params.len()),
+            RV::Native(n) => Self::native_arity(n),
+            _ => None,
+        }
+    }
+
+    /// the library pushes `pushed` in order and calls `f`; the callee consumes the last `arity`
+    fn call_cb(&mut self, f: &RV, pushed: &[RV], below: usize) -> R<RV> {
+        let Some(a) = self.callable_arity(f) else { return Err(ErrKind::InvalidArgument) };
+        if a > pushed.len() {
+            return Err(ErrKind::Undefined("callback_arity"));
+        }
+        if a < pushed.len() {
+            self.tags.insert("callback_leaves_values".into());
+        }
+        let args = pushed[pushed.len() - a..].to_vec();
+        let act = Activation { scopes: vec![vec![]], captured: None, is_main: false, below, junk: 0, loop_scopes: vec![] };
+        self.call_value(&act, f, args, 0)
+    }
+
+    fn call_std(&mut self, which: usize, args: Vec<RV>, below: usize) -> R<RV> {
+        let name = STD_NAMES[which];
+        let wrap = |native: &str, e: ErrKind| match e {
+            ErrKind::Undefined(w) => ErrKind::Undefined(w),
+            ErrKind::AbortSignal => ErrKind::Undefined("abort_in_native_reentry"),
+            other => ErrKind::TaskFailure(native.to_string(), Box::new(other)),
+        };
+        // the first supplied argument binds to the LAST declared parameter
+        let (cb, iterable) = match (name, args.len()) {
+            ("filter" | "map" | "any" | "min_by_key" | "max_by_key" | "sorted_by_key", 2) => (Some(args[0].clone()), args[1].clone()),
+            ("min" | "max" | "sorted" | "to_array", 1) => (None, args[0].clone()),
+            _ => return Err(ErrKind::Undefined("arity_mismatch")),
+        };
+        self.stats.calls += 1;
+        match name {
+            "filter" | "map" | "any" => {
+                let cb = cb.unwrap();
+                let res = RV::new_table();
+                let RV::Table(t) = &iterable else { return Err(ErrKind::InvalidArgument) };
+                let t = t.clone();
+                let mut idx = 0usize;
+                loop {
+                    self.tick()?;
+                    let entry = {
+                        let tb = t.borrow();
+                        tb.get(idx).cloned()
+                    };
+                    let Some((k, v)) = entry else { break };
+                    let r = self.call_cb(&cb, &[RV::Int(idx as i64), v.clone(), k.clone()], below + 8)?;
+                    match name {
+                        "filter" => {
+                            if r.truthy() {
+                                self.table_set(&res, k, v)?;
+                            }
+                        }
+                        "map" => self.table_set(&res, k, r)?,
+                        _ => {
+                            if r.truthy() {
+                                return Ok(k);
+                            }
+                        }
+                    }
+                    idx += 1;
+                }
+                Ok(if name == "any" { RV::Nil } else { res })
+            }
+            "min" | "max" | "min_by_key" | "max_by_key" => {
+                let less = name.starts_with("min");
+                let native = if less { "__min" } else { "__max" };
+                let RV::Table(t) = &iterable else { return Ok(iterable) };
+                let entries: Vec<(RV, RV)> = t.borrow().clone();
+                if entries.is_empty() {
+                    return Ok(RV::Nil);
+                }
+                let mut best = 0usize;
+                let mut best_key = RV::Nil;
+                for (j, (k, v)) in entries.iter().enumerate() {
+                    self.tick()?;
+                    let key = match &cb {
+                        None => v.clone(), // row_to_value
+                        Some(f) => self.call_cb(f, &[v.clone(), k.clone()], below + 4).map_err(|e| wrap(native, e))?,
+                    };
+                    if j == 0 {
+                        best_key = key;
+                        continue;
+                    }
+                    let better = match key.cmp(&best_key) {
+                        Some(std::cmp::Ordering::Less) => less,
+                        Some(std::cmp::Ordering::Greater) => !less,
+                        _ => false,
+                    };
+                    if better {
+                        best = j;
+                        best_key = key;
+                    }
+                }
+                let row = RV::new_table();
+                self.table_set(&row, RV::str("key"), entries[best].0.clone())?;
+                self.table_set(&row, RV::str("value"), entries[best].1.clone())?;
+                Ok(row)
+            }
+            "sorted" | "sorted_by_key" => {
+                let RV::Table(t) = &iterable else { return Ok(iterable) };
+                let entries: Vec<(RV, RV)> = t.borrow().clone();
+                let mut keyed: Vec<(RV, RV, RV)> = vec![];
+                for (k, v) in entries {
+                    self.tick()?;
+                    let key = match &cb {
+                        None => v.clone(),
+                        Some(f) => self.call_cb(f, &[v.clone(), k.clone()], below + 4).map_err(|e| wrap("__sort", e))?,
+                    };
+                    if let RV::Real(r) = &key {
+                        if r.is_nan() {
+                            return Err(ErrKind::Undefined("nan_sort_key"));
+                        }
+                    }
+                    keyed.push((key, k, v));
+                }
+                // stable, ascending; incomparable keys keep their order
+                keyed.sort_by(|a, b| a.0.cmp(&b.0).unwrap_or(std::cmp::Ordering::Equal));
+                let out = RV::new_table();
+                for (_, k, v) in keyed {
+                    self.table_set(&out, k, v)?;
+                }
+                Ok(out)
+            }
+            _ => {
+                // to_array
+                let RV::Table(t) = &iterable else { return Ok(iterable) };
+                let vals: Vec<RV> = t.borrow().iter().map(|(_, v)| v.clone()).collect();
+                let out = RV::new_table();
+                for (i, v) in vals.into_iter().enumerate() {
+                    self.table_set(&out, RV::Int(i as i64), v)?;
+                }
+                Ok(out)
+            }
+        }
     }
 }
 
